@@ -256,7 +256,7 @@ var errCutOff = errors.New("harness: generator cut off after far exceeding the b
 
 const (
 	genTotal    = 256 << 20 // what the source is prepared to supply
-	genHardStop = 4 << 20   // the harness stops feeding here: the bound is long refuted
+	genHardStop = 1 << 20   // the harness stops feeding here: the bound (~64 KiB) is long refuted
 )
 
 // genReader supplies prefix, then up to 256 MiB of a tag-free pattern.
